@@ -82,7 +82,24 @@ FRAME_STMT_ERRORS = [
 ]
 
 
-def wrap(stmt_text, depth, ctxkind, is_return_expr=None, extra_frame=None):
+# how each function of the chain calls the next one (the position of the call inside its caller)
+CALL_STYLES = {
+    "stmt": "{f}()",
+    "declare": "v_call := {f}()",
+    "slot": 'v_call := $"a${{{f}()}}b"',
+    "nested-slot": 'v_call := $"a${{$"<${{{f}()}}>"}}b"',
+    "list-item": "v_call := [1, {f}()]",
+    "argument": "v_call := ident({f}())",
+    "condition": "if {f}() == 0 {{\n    ok_acc += 1\n}}",
+    "operand": "v_call := 1 + {f}()",
+    "index": "v_call := ok_list[{f}()]",
+    "prop-value": 'v_call := {{"k": {f}()}}',
+    "return": "return {f}()",
+    "for-iterable": "for [k_i, v_i] in [{f}()] {{\n    ok_acc += 1\n}}",
+}
+
+
+def wrap(stmt_text, depth, ctxkind, is_return_expr=None, extra_frame=None, call_style="stmt"):
     """build the program; returns (src, expected_stdout, expected_frames) — frames: innermost-first list of function names
     that must appear in the trace (`in '<name>'`), and the name the first line must carry (or None)."""
     lines = []
@@ -104,7 +121,9 @@ def wrap(stmt_text, depth, ctxkind, is_return_expr=None, extra_frame=None):
     text = inner
     for d in range(depth, 0, -1):
         fname = f"f{d}"
-        text = f"fn {fname}() {{\n{ind(text, 1)}\n    return 0\n}}\n{fname}()"
+        # the outermost call (from the root) is a plain statement; the calls between functions use the chosen style
+        style = CALL_STYLES[call_style if d > 1 else "stmt"]
+        text = f"fn {fname}() {{\n{ind(text, 1)}\n    return 0\n}}\n" + style.replace("{f}", fname).replace("{{", "{").replace("}}", "}")
         names.append(fname)
     # names so far: [<unnamed>?] + [f_depth .. f1] built inside-out: innermost first means reverse order of wrapping
     chain = ([f"f{d}" for d in range(1, depth + 1)]) + (["<unnamed function>"] if ctxkind == "method" else [])
@@ -151,6 +170,32 @@ def check_diag(r, expected_stdout, expected_trace, first_in, allow_extra_stdout=
     return None
 
 
+NESTED_LOC = re.compile(r"\A(?:\d+:\d+: (?:in '[^'\n]+': )?)+")
+
+
+def known_slot_call_shape(r, expected_stdout, expected_trace, first_in, slot_owner):
+    """K6: a failure inside a function that was called from an interpolation slot.  The slot is parsed on its own when it is
+    evaluated, so the diagnostic is anchored at the slot (first line: position of the slot, `in '<function containing the
+    slot>'`, then the nested `l:c: in '<failing function>': message`), and the trace line of the call made in the slot carries
+    its position relative to the slot text.  Everything else is still required: stdout, status 103, one well-formed first line
+    with line >= 1 naming the function that contains the outermost slot, no internal identifiers, the failing function
+    named in the nested part, and a trace that names exactly the expected callers, innermost first, ending at <root>."""
+    if r["status"] != "103" or r["stdout"] != expected_stdout:
+        return False
+    m = FIRST.match(r["stderr"])
+    if not m or int(m.group(1)) < 1 or INTERNAL.search(m.group(4)) or m.group(3) != slot_owner:
+        return False
+    n = NESTED_LOC.match(m.group(4))
+    if not n or (first_in is not None and f"in '{first_in}': " not in n.group(0)):
+        return False
+    rest = r["stderr"][m.end():]
+    if not rest.startswith("Stacktrace:\n"):
+        return False
+    tr = TRACE.findall(rest[len("Stacktrace:\n"):])
+    consumed = "Stacktrace:\n" + "".join(f"  t.sd:{a}:{b}: in '{c}'\n" for a, b, c in tr)
+    return consumed == rest and [c for _, _, c in tr] == expected_trace and all(int(a) >= 1 for a, _, _ in tr)
+
+
 def oracle_one(ctx, src, r, expected=None):
     if expected is None:
         if r["status"] == "0":
@@ -191,6 +236,14 @@ def run(ctx, model_ok):
                 if ctx.tier != "thorough" and (depth + len(ck) + len(name)) % 2 != 0 and not (depth <= 1 and ck == "plain"):
                     continue
                 cases.append(((name, "stmt", depth, ck),) + wrap(st, depth, ck))
+    # the call chain written with every call style: the trace must name the same callers whatever position the calls are in
+    for style in CALL_STYLES:
+        if style == "stmt":
+            continue
+        for name, st in STMT_ERRORS[:3] + [("undefined_in_expr", "v_u := zz_undefined + 1")]:
+            for depth in (2, 3):
+                for ck in ("plain", "loop", "method"):
+                    cases.append(((name, "call-style:" + style, depth, ck),) + wrap(st, depth, ck, call_style=style))
     for name, st in FRAME_STMT_ERRORS:
         for depth in range(0, min(maxd, 2) + 1):
             for ck in ("plain", "loop", "block"):
@@ -229,8 +282,12 @@ def run(ctx, model_ok):
         if not cwhy:
             continue
         reported[sig] = 1
+        details = {"case": str(key), "cli": c, "failing_cases_in_stream": len(bad)}
+        if key[1] in ("call-style:slot", "call-style:nested-slot") and known_slot_call_shape(c, *exp, slot_owner="f1"):
+            # exactly the known mechanism (K6), everything else as required: listed as a known finding
+            details["call_inside_slot_known_shape"] = True
         if len(reported) <= 8:
-            ctx.violation("malformed or unlocated diagnostic: " + cwhy, src, {"case": str(key), "cli": c, "failing_cases_in_stream": len(bad)})
+            ctx.violation("malformed or unlocated diagnostic: " + cwhy, src, details)
     explained = {b[1] for b in bad}
     tie.report_disagreements(ctx, [d for d in dis if d[0] not in explained], "error_sites")
     for k in (len(cases) // 3, len(cases) * 2 // 3):
